@@ -7,12 +7,12 @@ and checked to be symmetric means.
 """
 import ast
 import sympy as sp
-from ..core import AnalysisError, norm, dotted, calls_in, walk_no_nested
+from ..core import AnalysisError, norm, dotted, calls_in, walk_no_nested, enclosing_stmt
 from ..alg import Sym, is_zero, Unsupported
 from ..flow import lexically_inside, Flow
 
 SCORES = "typhon/retrieval/scores.py"
-EXPECT = {"C19.exact": 5, "C19.pinball": 5, "C19.shapes": 1, "C19.mape": 6, "C19.bias": 6}
+EXPECT = {"C19.exact": 5, "C19.pinball": 5, "C19.shapes": 2, "C19.flat": 2, "C19.mape": 6, "C19.bias": 6}
 
 
 def _elementwise(ctx, fname):
@@ -142,10 +142,32 @@ def rule_pinball(ctx):
     ctx.ob("quantile_score.equal", ve == 0, "estimate = observation  ->  %s" % ve, "0", node=wh[0], func=f)
     # tau is used as given (not cast to the dtype of the estimates, not rounded)
     tv = env.get(taus)
-    ok = tv is None or (isinstance(tv, ast.Call) and dotted(tv.func) in ("np.asarray", "np.array", "np.atleast_1d")
-                        and len(tv.args) == 1 and norm(tv.args[0]) == taus and not tv.keywords)
+
+    def flat_of(e):
+        """x when e is a flattening of x with the values unchanged: np.ravel(x), np.asarray(x).ravel() / .flatten() / .reshape(-1), np.atleast_1d(x).ravel()"""
+        if isinstance(e, ast.Call) and dotted(e.func) in ("np.ravel", "numpy.ravel") and len(e.args) == 1 and not e.keywords:
+            return e.args[0]
+        if isinstance(e, ast.Call) and isinstance(e.func, ast.Attribute) and (e.func.attr in ("ravel", "flatten") and not e.args
+                                                                              or e.func.attr == "reshape" and [norm(a_) for a_ in e.args] in (["-1"], ["(-1,)"])):
+            inner = e.func.value
+            while isinstance(inner, ast.Call) and dotted(inner.func) in ("np.asarray", "np.array", "np.atleast_1d", "np.asanyarray") and len(inner.args) == 1 and not inner.keywords:
+                inner = inner.args[0]
+            return inner
+        return None
+    plain = tv is None or (isinstance(tv, ast.Call) and dotted(tv.func) in ("np.asarray", "np.array", "np.atleast_1d")
+                           and len(tv.args) == 1 and norm(tv.args[0]) == taus and not tv.keywords)
+    fl = flat_of(tv) if tv is not None else None
+    wrong_tau = None
+    if tv is not None:
+        names_ = [(dotted(c_.func) or (c_.func.attr if isinstance(c_.func, ast.Attribute) else "")).split(".")[-1] for c_ in ast.walk(tv) if isinstance(c_, ast.Call)]
+        if any(n_ in ("astype", "sort", "argsort", "flip", "unique", "round", "around", "rint") for n_ in names_) \
+                or any(isinstance(c_, ast.Call) and any(k_.arg == "dtype" for k_ in c_.keywords) for c_ in ast.walk(tv)):
+            wrong_tau = "the fractions are cast / re-ordered / rounded"
+    if not plain and fl is None and wrong_tau is None:
+        raise AnalysisError("quantile_score: re-binding taus = %s is not understood" % norm(tv)[:60])
+    ok = fl is not None and norm(fl) == taus and wrong_tau is None
     ctx.ob("quantile_score.taus", ok, "taus = %s" % (norm(tv) if tv is not None else taus),
-           "the quantile fractions are used unchanged (a dtype cast to the estimates' type truncates them for integer data)",
+           "the k quantile fractions are flattened (values unchanged, no dtype cast): fraction j multiplies column j also when they are given as a column vector",
            node=tv if tv is not None else f.node, func=f)
     ctx.models.append({"rule": "C19.pinball", "cases": 3, "identity": "three order cases of estimate vs observation"})
     # column j of the estimates stays paired with taus[j], row i with observation i: the arguments are only re-shaped
@@ -211,6 +233,22 @@ def rule_shapes(ctx):
             pinned = len(shape) == 2 and shape[1] == "1" and shape[0] in rows_of_estimates
             fact = "try: %s.reshape(%s) except -> ValueError: %s" % (ytest, ", ".join(shape), raises_value)
             ok = raises_value and pinned
+    # the estimates: reshape(-1, k) silently re-chunks a 2-d array with another row length; a guard has to reject it first
+    rflow = Flow(f)
+    rs_tau = [c for c in calls_in(f.node, "reshape") if isinstance(c.func, ast.Attribute) and norm(c.func.value) == ytau]
+    if not rs_tau:
+        raise AnalysisError("quantile_score: the reshape of the estimates to (n, k) was not found")
+    rst = enclosing_stmt(rs_tau[0])
+    guards = []
+    for st in rflow.stmts:
+        if isinstance(st, ast.If) and any(isinstance(x, ast.Raise) and x.exc is not None and "ValueError" in norm(x.exc) for x in st.body) \
+                and ("%s.shape" % ytau in norm(st.test) or "np.shape(%s)" % ytau in norm(st.test)) \
+                and any(isinstance(c_, ast.Compare) and isinstance(c_.ops[0], ast.NotEq) for c_ in ast.walk(st.test)):
+            if all(rflow.cfg.dominated_by(n_, set(rflow.cfg.nodes(st))) for n_ in rflow.cfg.nodes(rst)):
+                guards.append(st)
+    ctx.ob("quantile_score.row_guard", bool(guards), "guards before `%s`: %s" % (norm(rst)[:50], [norm(g_.test)[:80] for g_ in guards] or "none"),
+           "an estimate array of two or more dimensions whose rows do not have one entry per quantile fraction is rejected with ValueError (reshape(-1, k) would re-chunk it silently)",
+           node=rst, func=f, witness=None if guards else {"y_tau.shape": [3, 7], "taus": 3, "y_test": 7, "accepted as": "7 rows of 3 scrambled estimates"})
     ctx.ob("quantile_score.shape_guard", ok, fact,
            "y_test is reshaped to exactly (rows of y_tau, 1) inside a try whose handler raises ValueError "
            "(reshape(-1, 1) would accept any length and broadcast)", node=f.node, func=f)
@@ -238,7 +276,63 @@ def rule_exact(ctx):
               "the scores use no tolerance and do not modify their arguments")
 
 
+def rule_flat(ctx):
+    """mape / bias pair element i of the prediction with element i of the truth whatever the layout ((n,), (n,1)): every operand of the
+    element-wise expression is flattened.  An operand left as it came broadcasts a column against a flat vector to an n x n matrix."""
+    ctx.rule("C19.flat", "T6", "mape / bias: prediction and truth are flattened before they meet element-wise")
+    for name in ("mape", "bias"):
+        f = ctx.func(SCORES, name)
+        flow = Flow(f)
+        rets = [s_ for s_ in flow.stmts if isinstance(s_, ast.Return) and s_.value is not None]
+        if len(rets) != 1:
+            raise AnalysisError("%s: expected a single return" % name)
+        params = f.params[:2]
+
+        def is_flat(e, at, depth=0):
+            if depth > 6:
+                return False
+            if isinstance(e, ast.Call) and dotted(e.func) in ("np.ravel", "numpy.ravel") and len(e.args) == 1:
+                return True
+            if isinstance(e, ast.Call) and isinstance(e.func, ast.Attribute) and (e.func.attr in ("ravel", "flatten") or e.func.attr == "reshape" and [norm(a_) for a_ in e.args] in (["-1"], ["(-1,)"])):
+                return True
+            if isinstance(e, ast.Call) and (dotted(e.func) or "").split(".")[-1] in ("abs", "absolute", "fabs", "asarray", "float64", "astype") and e.args:
+                return is_flat(e.args[0], at, depth + 1)
+            if isinstance(e, ast.Name):
+                ds = flow.defs(e.id, at)
+                if not ds or "param" in ds:
+                    return False
+                vals = [flow._def_value(d_, e.id) for d_ in ds]
+                return all(v_ is not None and is_flat(v_, d_, depth + 1) for v_, d_ in zip(vals, ds))
+            if isinstance(e, ast.Subscript) and isinstance(e.value, (ast.Tuple, ast.List)) and isinstance(e.slice, ast.Constant) and isinstance(e.slice.value, int):
+                return is_flat(e.value.elts[e.slice.value], at, depth + 1)
+            return False
+        leaves = []
+
+        def walk(e):
+            if isinstance(e, ast.BinOp):
+                walk(e.left)
+                walk(e.right)
+            elif isinstance(e, ast.UnaryOp):
+                walk(e.operand)
+            elif isinstance(e, ast.Constant):
+                pass
+            elif isinstance(e, ast.Call) and (dotted(e.func) or "").split(".")[-1] in ("mean", "nanmean", "abs", "absolute", "fabs", "sum", "nansum") and e.args \
+                    and not is_flat(e, rets[0]):
+                walk(e.args[0])
+            else:
+                leaves.append(e)
+        walk(rets[0].value)
+        involved = [l_ for l_ in leaves if any(isinstance(n_, ast.Name) and (n_.id in params or flow.defs(n_.id, rets[0]) not in ([], ["param"]) and n_.id not in ("np",)) for n_ in ast.walk(l_))]
+        if not involved:
+            raise AnalysisError("%s: operands of the element-wise expression not found" % name)
+        notflat = [str(norm(l_))[:40] for l_ in involved if not is_flat(l_, rets[0])]
+        ctx.ob("%s.flattened" % name, not notflat, "operands: %s; not flattened: %s" % ([str(norm(l_))[:30] for l_ in involved], notflat or "none"),
+               "every array operand is flattened (ravel / flatten / reshape(-1)): a column vector meets a flat vector element by element, not as an n x n matrix",
+               node=rets[0], func=f, witness=None if not notflat else {"y_pred.shape": "(n,)", "y_test.shape": "(n, 1)", "perfect prediction": "score != 0"})
+
+
 def run(ctx):
+    ctx.attempt(rule_flat, ctx)
     ctx.attempt(rule_exact, ctx)
     ctx.attempt(rule_pinball, ctx)
     ctx.attempt(rule_shapes, ctx)
